@@ -65,7 +65,6 @@ REQUIRED = [
 ]
 # functions named in Props/C18.v as reviewed escapes: the translator only guarantees they exist and prints their ids
 NAMED_FUNCS = [
-    ('templatewriter/__init__.py', 'Template.fromdir'),
     ('extensions/__init__.py', '_importlib_resources_contents'),
     ('themes/__init__.py', 'get_themes'),
     ('epydoc/markup/__init__.py', 'get_supported_docformats'),
